@@ -88,3 +88,9 @@ pub fn fnv_add(h: u64, data: &[u8]) -> u64 {
     }
     h
 }
+
+/// Budget scaling for self-tests: `VERIF_BUDGET_PERMILLE=100` runs a tenth of every batch (default 1000).
+pub fn scaled(n: u64) -> u64 {
+    let p = std::env::var("VERIF_BUDGET_PERMILLE").ok().and_then(|s| s.parse::<u64>().ok()).unwrap_or(1000);
+    (n.saturating_mul(p) / 1000).max(1)
+}
